@@ -475,7 +475,12 @@ pub fn gen_case(rng: &mut Rng, tier: Tier, for_sweep: bool) -> Case13 {
             map_class = "huge".into();
         }
         6 | 7 | 8 | 9 => {
-            let rel = *rng.pick(&["a.js.map", "maps/a.js.map", "../maps/a.js.map", "./a.js.map"]);
+            // a relative reference that climbs k folders: k ranges over and just beyond the depth of
+            // the file's folder
+            let depth = std::path::Path::new(&dir).components().count();
+            let climb = format!("{}maps/a.js.map", "../".repeat(rng.range(0, depth + 1)));
+            let rel_owned = if rng.chance(1, 3) { climb } else { (*rng.pick(&["a.js.map", "maps/a.js.map", "../maps/a.js.map", "./a.js.map", "../a.js.map"])).to_string() };
+            let rel = rel_owned.as_str();
             fs.nodes.insert(join(&dir, rel), FsNode::Text(valid_map.clone()));
             source.push_str(&format!("\n//# sourceMappingURL={}\n", rel));
             ref_kind = "external-relative".into();
